@@ -14,6 +14,7 @@ from .replay import ensure_repo_on_path
 
 CHECKS = {
     "C09": "harness.c09",
+    "C10": "harness.c10",
 }
 
 
@@ -63,7 +64,7 @@ def generic_replay(mod, path: str) -> int:
     rp = data["replay"]
     fmod = importlib.import_module(fam.fam_module)
     r = fmod.run_scenario(rp["scenario"], **rp.get("kw", {}))
-    v = tlc.validate_traces(fam.t_module, [{"id": 0, "events": r["events"]}], tag=fam.prop + "-replay")[0]
+    v = tlc.validate_traces(fam.t_module, [{"id": 0, "events": r["events"], "params": r.get("params")}], tag=fam.prop + "-replay")[0]
     print(json.dumps({"trace": r["events"], "verdict": v, "flags": r["flags"]}, indent=1))
     if v["bad"] or r["flags"].get("budget"):
         print(f"VIOLATION property={fam.prop} replay={path}")
